@@ -89,7 +89,7 @@ func leaves(env *ty.Env, thorough bool) []*ty.Ty {
 }
 
 func keyTypes() []*ty.Ty {
-	return []*ty.Ty{ty.B("bool"), ty.B("int8"), ty.B("uint64"), ty.B("float64"), ty.B("string"), ty.N(0), ty.N(1), ty.N(5), ty.Ar(2, ty.B("int")), ty.N(15), ty.N(21),
+	return []*ty.Ty{ty.B("bool"), ty.B("int8"), ty.B("uint64"), ty.B("float64"), ty.B("complex128"), ty.B("string"), ty.N(0), ty.N(1), ty.N(5), ty.Ar(2, ty.B("int")), ty.N(15), ty.N(21),
 		ty.St(ty.F("A", ty.B("int")), ty.F("B", ty.B("string")))}
 }
 
